@@ -561,10 +561,10 @@ func TestVerif_C10(t *testing.T) {
 	// (f) the SSH key file as the validator and as the signer read it
 	fileCases, fileIdx := c10FileStage(t, env, res, corpus, userCookie)
 	// (e) signed tokens of every kind, claim-dropped / type-confused / corrupted, at every token sink
-	c10TokenStage(t, env, res, rng)
+	claimCases, claimIdx := c10TokenStage(t, env, res, rng)
 	var sb strings.Builder
 	sb.WriteString(coqCaseHeader)
-	sb.WriteString("From KM Require Import Base.Cases Model.KeyStrength.\nOpen Scope N_scope.\n")
+	sb.WriteString("From KM Require Import Base.Cases Model.KeyStrength Model.ClaimAccess.\nOpen Scope N_scope.\n")
 	sb.WriteString("Definition pred_cases : list (N * N * N * bool) := [\n " + strings.Join(predCases, ";\n ") + "].\n")
 	sb.WriteString("Definition c10_pred_mismatches := Eval vm_compute in mismatches c10_bad pred_cases.\nPrint c10_pred_mismatches.\n")
 	sb.WriteString("(* issuing paths: class 0 = certificate issued, 1 = client error, 2 = server error/other *)\n")
@@ -574,12 +574,17 @@ func TestVerif_C10(t *testing.T) {
 	sb.WriteString("Definition file_cases : list (option (N * N * N * N) * option (N * N * N * N) * N) := [\n " + strings.Join(fileCases, ";\n ") + "].\n")
 	sb.WriteString("Definition c10_file_mismatches := Eval vm_compute in mismatches c10_file_bad file_cases.\nPrint c10_file_mismatches.\n")
 	sb.WriteString("Definition c10_agree_mismatches := Eval vm_compute in mismatches c10_agree_bad file_cases.\nPrint c10_agree_mismatches.\n")
-	sb.WriteString("Definition c10_ncases := Eval vm_compute in (length pred_cases + length pipe_cases + length file_cases)%nat.\nPrint c10_ncases.\n")
+	sb.WriteString("(* claim access on well-signed tokens: (payload, clock s, panicked, what getAuthInfoFromAuthJWT returned: user, level, expires, issued-at) *)\n")
+	sb.WriteString("Definition c10_issuer : bs := " + coqPacked([]byte(env.state.idpGetIssuer())) + ".\nDefinition c10_kind : bs := " + coqPacked([]byte("keymaster_auth")) + ".\n")
+	sb.WriteString("Definition claim_cases : list (json * Z * bool * option (bs * Z * Z * Z)) := [\n " + strings.Join(claimCases, ";\n ") + "].\n")
+	sb.WriteString("Definition c10_claim_mismatches := Eval vm_compute in mismatches (fun c : json * Z * bool * option (bs * Z * Z * Z) => let '(pl, now, pan, obs) := c in match get_auth_info c10_issuer c10_kind now pl, obs with | Ok (u, l, e, i), Some (u', l', e', i') => pan || negb (bs_eqb u u' && (l =? l')%Z && (e =? e')%Z && (i =? i')%Z) | Err, None => pan | Panic, _ => negb pan | _, _ => true end) claim_cases.\nPrint c10_claim_mismatches.\n")
+	sb.WriteString("Definition c10_ncases := Eval vm_compute in (length pred_cases + length pipe_cases + length file_cases + length claim_cases)%nat.\nPrint c10_ncases.\n")
 	if err := ioutil.WriteFile(filepath.Join(verifOut(), "CasesC10.v"), []byte(sb.String()), 0644); err != nil {
 		t.Fatal(err)
 	}
 	ioutil.WriteFile(filepath.Join(verifOut(), "CasesC10.idx"), []byte(strings.Join(pipeIdx, "\n")), 0644)
 	ioutil.WriteFile(filepath.Join(verifOut(), "CasesC10F.idx"), []byte(strings.Join(fileIdx, "\n")), 0644)
+	ioutil.WriteFile(filepath.Join(verifOut(), "CasesC10J.idx"), []byte(strings.Join(claimIdx, "\n")), 0644)
 	res.sample(map[string]interface{}{"path": "role", "key": "rsa-2047-e65537", "expected": "client error"})
 	res.sample(pipeIdx[0])
 	res.sample(pipeIdx[len(pipeIdx)/2])
